@@ -85,6 +85,15 @@ def step (_ : Unit) (ts : List String) : Unit × String :=
           if rs.2.fault || rc.2.fault then "FAULT" else s!"connect=1 s={showList rs.1} c={showList rc.1}"
         | _, _ => "FAULT"
       | _, _ => "bad-op"
+    -- a second thread polls closed() while receive() runs: every one-byte message arrives
+    | ["watch", role, st, n, seed] => match roleOf role, unhex st, n.toNat?, seed.toNat? with
+      | some ic, some s, some k, some sd =>
+        if k < 1 || k > 1000000 then "bad-op" else
+        let wire := (List.range k).flatMap fun i => [0x82, 0x01, UInt8.ofNat ((sd + i) % 251)]
+        let r := run { isClient := ic, rng := rngOf s, inp := wire }
+        let got := (r.1.filter (· ≠ [])).flatten
+        s!"n={got.length}:{showBytes got} closed={if r.2.closed then 1 else 0}"
+      | _, _, _, _ => "bad-op"
     -- server handshake on arbitrary request bytes
     | ["hs", h] => match unhex h with
       | some req => hex (serverHandshake req)
@@ -122,7 +131,7 @@ def step (_ : Unit) (ts : List String) : Unit × String :=
           -- fragments are accepted while the sum stays within recvMaxMsg; the first one that does not closes
           let k := (List.range nfrag).foldl (fun acc _ => if acc.2 then acc else
                       if (acc.1 + 1) * len > Gen.Ws.recvMaxMsg then (acc.1, true) else (acc.1 + 1, false)) (0, false)
-          if k.2 then s!"lens={k.1 * len} closed=1"          -- the fragments received so far are returned, closed
+          if k.2 then "lens=0 closed=1"                      -- refused: closed, nothing of the message is delivered
           else s!"lens={nfrag * len} closed=1"
       | _, _ => "bad-op"
     | _ => "bad-op"
